@@ -241,10 +241,22 @@ def appendPre (p : Prefs) (o : O) (v : AVal) (ty : Cps) (f : Fl) : Option (Cps Ã
     | .obj t => some (t, o)
     | _ => some (v.text, if isInfix v.text c_punctPre && !f.alwaysS then removeLastIfS o else o)
 
-/-- APPEND phase (`:268-274`) -/
+/-- the test of d39f9c4 (`:274-277`): `self.out and ((val.startswith('*') and self.out[-1] == '/') or
+(val == '=' and self.out[-1] in ('*', '~', '|', '^', '$')))` â€” written without white space `/` + `*â€¦` would open a
+comment and `*` + `=` would be the single token `*=` -/
+def wouldFuse (o : O) (val : Cps) : Bool :=
+  match o with
+  | [] => false
+  | x :: _ =>
+    (val.head? == some 42 && x == [47])
+      || (val == [61] && (x == [42] || x == [126] || x == [124] || x == [94] || x == [36]))
+
+/-- APPEND phase (`:268-281`) -/
 def appendMid (p : Prefs) (il : Nat) (o : O) (val : Cps) (f : Fl) : O :=
   if f.indent || (val == [125] && p.indentClosingBrace) then indentblock p val il :: o
-  else val :: (if endsSp val && !endsEscSp val then removeLastIfS o else o)
+  else
+    let o1 := if endsSp val && !endsEscSp val then removeLastIfS o else o
+    val :: (if wouldFuse o1 val then [32] :: o1 else o1)
 
 /-- POST phase (`:275-307`) -/
 def appendPost (p : Prefs) (o : O) (val : Cps) (ty : Cps) (f : Fl) : O :=
